@@ -3,7 +3,9 @@ the Chooser for a raw value, so a whole message is a function of the choice sequ
 from refbufr.walker import all_ones
 
 SPECIAL_STRINGS = [b'BUFR', b'7777', b" b'", b'"', b"'", b'\\', b'  x', b'x  ', b"b'x'", b'-> A', b'#',
-                   b'3', b'\xe9t\xe9', b'a"b', b"a'b"]
+                   b'3', b'\xe9t\xe9', b'a"b', b"a'b",
+                   # octets that are valid multi-byte UTF-8 (the field is latin-1 all the same), trailing and interior NULs
+                   b'Z\xc3\xbcrich', b'\xc3\xa9t\xc3\xa9', b'EUM\x00\x00', b'A\x00B\x00', b'\xc2\xb0C']
 ASCII = bytes(range(0x20, 0x7f))
 LATIN = bytes(range(0x20, 0x7f)) + bytes(range(0xa0, 0xff))
 
